@@ -33,6 +33,11 @@ type FCmd struct {
 	Multi bool   `json:"multi,omitempty"` // multi-row command by construction
 	RMW   bool   `json:"rmw,omitempty"`   // reads-modifies earlier state (CAS, lock, deregister, VIP reuse …)
 
+	// wall-clock time (ns, fake clock) that passes on replica A / on the other replicas right before this entry is
+	// applied: "same log, different pacing" is part of C01's quantifier
+	GapA int64 `json:"gap_a,omitempty"`
+	GapB int64 `json:"gap_b,omitempty"`
+
 	// plan fields
 	SkewNS int64 `json:"skew_ns,omitempty"`
 	Cuts   []int `json:"cuts,omitempty"`
